@@ -16,7 +16,13 @@ Definition balv (v : bytes * bytes * bytes * list frame) : Prop :=
   let '(w, c, m, snt) := v in w ++ c ++ m = enc snt.
 Definition bal (s : ep) : Prop := balv (tv s).
 
-Ltac bal_norm := repeat match goal with |- bal (set ?p ?f ?x) => change (bal x) end.
+Ltac bal_norm :=
+  repeat match goal with
+  | |- bal (set ?p ?f ?x) =>
+      let H := fresh in
+      assert (H : forall y, bal (set p f y) = bal y) by (intro; reflexivity);
+      rewrite (H x); clear H
+  end.
 
 Lemma tv_bal a b : tv a = tv b -> bal b -> bal a.
 Proof. unfold bal. intros ->. auto. Qed.
@@ -89,21 +95,25 @@ Proof. induction l as [|it l IH]; intros s0 H; cbn [fold_left]; [exact H|]. appl
 Lemma bal_flush_pend_start s : bal s -> bal (flush_pend_start s).
 Proof. intros H. unfold flush_pend_start. apply bal_flush_fold. exact H. Qed.
 
+Lemma tv_sbd n y : tv (send_buffer_decreased n y) = tv y.
+Proof. unfold send_buffer_decreased, pq_trigger. destruct (_ <? _); [destruct (pq_set y)|]; reflexivity. Qed.
+
+Lemma bal_move (s y1 : ep) data rest :
+  tv y1 = (wire s, conn_tx s, rest, sent s) -> msg_tx s = data ++ rest -> bal s ->
+  bal (y1 <| conn_tx := conn_tx y1 ++ data |>).
+Proof.
+  unfold bal, tv, balv. cbn [wire conn_tx msg_tx sent set]. intros T M H.
+  injection T as -> -> -> ->. rewrite <- H, M, <- !app_assoc. reflexivity.
+Qed.
+
 Lemma bal_tx_proxy a s : bal s -> bal (fst (tx_proxy a s)).
 Proof.
   intros H. unfold tx_proxy.
   match goal with |- context [if ?c then ?x else ?y] =>
     assert (H1 : bal (fst (if c then x else y))) end.
   { destruct (_ <? CHUNK); cbn [fst]; [|exact H].
-    match goal with |- bal (set conn_tx ?f ?x) =>
-      assert (T : tv (set conn_tx f x) = (wire s, conn_tx s ++ firstn chunk_nat (msg_tx s), skipn chunk_nat (msg_tx s), sent s)) end.
-    { unfold tv. cbn [wire conn_tx msg_tx sent set].
-      match goal with |- context [send_buffer_decreased ?n ?y] =>
-        assert (S1 : tv (send_buffer_decreased n y) = tv y)
-          by (unfold send_buffer_decreased, pq_trigger; destruct (_ <? _); [destruct (pq_set y)|]; reflexivity) end.
-      unfold tv in S1. injection S1 as -> -> -> ->. reflexivity. }
-    unfold bal. rewrite T. unfold bal, tv, balv in *.
-    rewrite <- H, <- !app_assoc, firstn_skipn. reflexivity. }
+    apply (bal_move s _ (firstn chunk_nat (msg_tx s)) (skipn chunk_nat (msg_tx s))); [|symmetry; apply firstn_skipn|exact H].
+    rewrite tv_sbd. reflexivity. }
   match goal with |- context [if ?c then ?x else ?y] => destruct (if c then x else y) as [s1 ue] end.
   cbn [fst] in H1. destruct (is_nil (conn_tx s1)); [exact H1|].
   cbv zeta. destruct (_ =? 0); cbn [fst]; [apply bal_do_close; exact H1|].
@@ -111,12 +121,25 @@ Proof.
   rewrite <- H1, <- !app_assoc. rewrite (app_assoc (firstn _ _)), firstn_skipn. reflexivity.
 Qed.
 
+(* purely syntactic dispatch: [apply] with unification up to conversion on
+   these nested states is far too expensive *)
 Ltac bal_auto H :=
-  repeat first
-    [ exact H
-    | progress bal_norm
-    | apply bal_check_sess_term | apply bal_emit | apply bal_send_msg | apply bal_set_state
-    | apply bal_pq_trigger | apply bal_flush_pend_start | apply bal_send_sess_init | apply bal_do_close ].
+  repeat match goal with
+  | H' : bal ?y |- bal ?y => exact H'
+  | |- bal (check_sess_term _) => apply bal_check_sess_term
+  | |- bal (emit _ _) => apply bal_emit
+  | |- bal (send_msg _ _) => apply bal_send_msg
+  | |- bal (set_state _ _) => apply bal_set_state
+  | |- bal (pq_trigger _) => apply bal_pq_trigger
+  | |- bal (flush_pend_start _) => apply bal_flush_pend_start
+  | |- bal (send_sess_init _) => apply bal_send_sess_init
+  | |- bal (send_contact_header _) => apply bal_send_contact_header
+  | |- bal (do_close _) => apply bal_do_close
+  | |- bal (set ?p ?f ?x) =>
+      let E := fresh in
+      assert (E : forall y, bal (set p f y) = bal y) by (intro; reflexivity);
+      rewrite (E x); clear E
+  end.
 
 Lemma bal_handle_msg m s : bal s -> bal (fst (handle_msg m s)).
 Proof.
@@ -231,4 +254,14 @@ Theorem sent_accounting : forall c ops,
   wire (run c ops) ++ conn_tx (run c ops) ++ msg_tx (run c ops) = enc (sent (run c ops)).
 Proof.
   intros c ops. apply (run_invariant bal c); [reflexivity|intros; apply bal_step; assumption].
+Qed.
+
+(** The channel lemma with the accounting premise discharged. *)
+Theorem channel_acc : forall cA opsA cB opsB,
+  (exists rest, wire (run cA opsA) = received (init cB) opsB ++ rest) ->
+  Forall wf_frame (sent (run cA opsA)) ->
+  shape (sent (run cA opsA)) ->
+  is_prefix (handled (run cB opsB)) (sent (run cA opsA)).
+Proof.
+  intros cA opsA cB opsB HW WF SH. apply channel; try assumption. apply sent_accounting.
 Qed.
